@@ -206,6 +206,11 @@ func checkC13(c *Check) {
 		"the authorization endpoint's own query parameters are not merged into the redirect's parameters (any query of its own must be retained)")
 	c.Obl(okDyn, "C13.R2", "param/endpoint-query-retained", P.Pos(rd.Pos()), whyDyn, whyDyn)
 
+	// the scope parameter carries the exact scope "openid": the loader adds it unless the exact string is configured
+	if df := P.Func(pkgInt, "applyOIDCDefaults"); c.Anchor("C13.R2", "scope-defaulting helper of the loader", df != nil) {
+		openidScopeRule(c, "C13.R2", df)
+	}
+
 	// ---- R3
 	stored := extractOf(m.CbGetState, 0)
 	okLoc := isFieldOf(m.CbLocation, "RequestedURL", func(b ssa.Value) bool { return stored != nil && sameVal(b, stored) }) &&
